@@ -112,7 +112,8 @@ def qbytes_mm_impl_cpu(activations: torch.Tensor, weights: torch.Tensor, output_
     if (
         activations.dtype == torch.bfloat16
         and weights.dtype == torch.int8
-        and in_features % 4 == 0
+        # torch._weight_int8pack_mm reads the inner dimension by blocks of 16
+        and in_features % 16 == 0
         # torch._weight_int8pack_mm expects one scale per output feature
         and output_scales.numel() == weights.shape[0]
     ):
